@@ -115,6 +115,7 @@ int main(void)
       else if(IS("m_getcol")){ D[z(3)] = getMatrixColumn(M[z(1)], z(2)); }
       else if(IS("m_transpose")){ MatrixTranspose(M[z(1)], M[z(2)]); }
       else if(IS("m_sort")){ MatrixSort(M[z(1)], z(2)); }
+      else if(IS("m_rsort")){ MatrixReverseSort(M[z(1)], z(2)); }
       else if(IS("t_init")){ initTensor(&T[z(1)]); }
       else if(IS("t_new")){ NewTensor(&T[z(1)], z(2)); }
       else if(IS("t_del")){ DelTensor(&T[z(1)]); T[z(1)] = NULL; }
